@@ -156,6 +156,29 @@ class SFLW(Subject):
         self.lst.set_focus(i)
 
 
+class SLW(Subject):
+    """SimpleListWalker: MonitoredList + a position re-clamped by the walker's _modified wrapper; observed as a ListBox
+    observes it, through get_focus() (None when there is nothing to focus)."""
+
+    name = "SimpleListWalker"
+    kind = "clamp"
+    emptyfocus = "IndexError"
+
+    def make(self, items, focus):
+        import urwid
+
+        self.lst = urwid.SimpleListWalker(items)
+        if items:
+            self.lst.set_focus(focus)
+        urwid.connect_signal(self.lst, "modified", self._on_mod)
+
+    def focus(self):
+        return self.lst.get_focus()[1]
+
+    def set_focus(self, i):
+        self.lst.set_focus(i)
+
+
 class _Container(Subject):
     """Pile/Columns/GridFlow .contents: elements are (widget, options) tuples; abstract id = the
     widget's tag.  The container itself owns the modified / focus callbacks of the list, so
@@ -246,7 +269,7 @@ class GridFlowC(_Container):
         return g
 
 
-SUBJECTS = {c.name: c for c in (MFL, ML, SFLW, PileC, ColumnsC, GridFlowC)}
+SUBJECTS = {c.name: c for c in (MFL, ML, SFLW, SLW, PileC, ColumnsC, GridFlowC)}
 
 
 # ------------------------------------------------------------------------------------------------
@@ -431,7 +454,7 @@ def run(chk):
     # other subjects: every op from a few states
     few = [s for s in sts if len(s[0]) in (0, 1, 3)][:: (3 if quick else 1)]
     small_ops = all_ops(3, 2, 1, [1, 2, 3])
-    for cls in (ML, SFLW, PileC, ColumnsC, GridFlowC):
+    for cls in (ML, SFLW, SLW, PileC, ColumnsC, GridFlowC):
         for items, f in few:
             for op in small_ops:
                 if cls is ML and op["n"] == "setfocus":
@@ -448,7 +471,7 @@ def run(chk):
                 traces.append(record(MFL, items, f, [o1, o2]))
                 n_pairs += 1
     pair_states = [([1, 2, 3], 2), ([1, 2], 1), ([], -1)] if not quick else [([1, 2, 3], 2)]
-    for cls in (SFLW, PileC, ColumnsC, GridFlowC, ML):
+    for cls in (SFLW, SLW, PileC, ColumnsC, GridFlowC, ML):
         for items, f in pair_states:
             for o1 in r1:
                 for o2 in r2:
@@ -469,7 +492,7 @@ def run(chk):
     # ---- code -> spec, seeded random histories --------------------------------------------
     n_rand = 1500 if quick else 40000
     for i in range(n_rand):
-        cls = [MFL, MFL, SFLW, ML, PileC, ColumnsC, GridFlowC][i % 7]
+        cls = [MFL, MFL, SFLW, ML, PileC, ColumnsC, GridFlowC, SLW][i % 8]
         n0 = rng.randint(0, 5)
         items = list(range(1, n0 + 1))
         rng.shuffle(items)
@@ -508,8 +531,12 @@ def run(chk):
                 nontriv.add(json.dumps([t["subject"], t["init"], e["op"]]))
     chk.cov["clause_counts"] = {f"{a}.{b}.{c}": n for (a, b, c), n in sorted(kinds.items())}
     chk.cov["distinct_nontrivial"] = len(nontriv)
+    for sub in SUBJECTS:
+        for opn in ("delslice", "pop", "remove", "delitem", "setslice", "clear", "insert"):
+            if not kinds.get((sub, opn, "ok")):
+                chk.vacuity.append(f"driver.{sub}.{opn}")
     chk.cov["rule"] = ("every operation of the bounded alphabet from every bounded (list, focus) state on MonitoredFocusList, "
-                       "a sub-alphabet on MonitoredList/SimpleFocusListWalker/Pile/Columns/GridFlow contents, seeded random histories "
+                       "a sub-alphabet on MonitoredList/SimpleFocusListWalker/SimpleListWalker (position re-clamped, seen through get_focus)/Pile/Columns/GridFlow contents, seeded random histories "
                        "of length 30, and TLC -simulate behaviours replayed; non-trivial = distinct single-op cases that change the contents")
     chk.cov["exhaustive"] = True
     chk.cov["bounds"] = {"exhaustive_states": len(sts), "ops_per_state": len(ops), "exhaustive_cases": n_ex, "random_histories": n_rand}
